@@ -153,9 +153,9 @@ def _culprit(req):
     if req['method'] == 'GET':
         return 'path', req['path']
     if req['via'] == 'handler':
-        if req['framing'] != 'cl_exact':
+        if req['framing'] not in ('cl_exact', 'chunked_ok'):
             return 'framing', req['framing']
-        if req['coding'] != 'none':
+        if req['coding'] not in ('none', 'supported'):
             return 'coding', req['coding']
         if req['path'] in ('unknown_prefix', 'root', 'no_path'):
             return 'path', req['path']
@@ -270,7 +270,7 @@ def check(run, replay_path=None):
     for idx, v, actual in results:
         rec = {'case': chosen[idx]['req'], 'actual': {k: actual[k] for k in TLC_FIELDS}}
         traces.append([rec])
-    consts = _constants(templates, all_targets)
+    consts = dict(_constants(templates, all_targets), Part='"trace"', EmitOnly='FALSE')
     cfg = _write_cfg('_gen_c13_trace.cfg', 'TraceSpec', consts, 'POSTCONDITION AllConsumed\n')
     n_tlc = len(run.tlc)
     rejects = tracecheck.validate(run, 'PipelineTrace', cfg, traces, chunk=run.pick(4000, 12000), timeout=1500)
